@@ -12,7 +12,7 @@ RULE = ("for every joint degree sequence in the box and every motif configuratio
 BOUNDS = {
     "quick": "N 1..4 vertices; entries 0..2 (t<=2 topologies/orbits); 9 fast/network configs, 11 custom configs; "
              "instances with more than 700 distinct arrangements are skipped and counted",
-    "thorough": "N 1..5; entries 0..3 (t=1), 0..2 (t=2,3); 12 fast + 13 custom configs; cap 60000 arrangements",
+    "thorough": "N<=5, entries<=3 (t=1); N<=4, entries<=2 and N<=5, entries<=1 (t=2); N<=4, entries<=1 and N<=3, entries<=2 (t=3); 12 fast + 13 custom configs; cap 5000 arrangements",
 }
 ASSUMPTIONS = ["equal stub values give identical executions, so distinct multiset arrangements (weighted by "
                "multiplicity) cover all n! permutations exactly",
